@@ -7,8 +7,8 @@ PROP = {
         {"name": "gstuff_cfg", "quick": 1500000, "thorough": 20000000, "maxlen": 400},
         {"name": "gstuff_legacy", "quick": 1000000, "thorough": 12000000, "maxlen": 400},
         {"name": "gstuff_cfg_resume", "quick": 600000, "thorough": 8000000, "maxlen": 300},
-        {"name": "gstuff_cfg_bigcap", "quick": 20000, "thorough": 300000, "maxlen": 400},
-        {"name": "gstuff_legacy_bigcap", "quick": 15000, "thorough": 200000, "maxlen": 400},
+        {"name": "gstuff_cfg_bigcap", "quick": 6000, "thorough": 300000, "maxlen": 400},
+        {"name": "gstuff_legacy_bigcap", "quick": 5000, "thorough": 200000, "maxlen": 400},
     ],
     "fuzz": [{"name": "gstuff_cfg", "secs": 60, "maxlen": 400}, {"name": "gstuff_legacy", "secs": 30, "maxlen": 400}],
 }
